@@ -1108,6 +1108,9 @@ class C15(fw.Prop):
             if c[0] == "extend":
                 for j in range(len(c[1])):
                     yield {**case, "prog": prog[:i] + [[c[0], c[1][:j] + c[1][j + 1:]]] + prog[i + 1:]}
+            if c[0] == "track_wires" and len(c[1]) > 1:
+                for j in range(len(c[1])):
+                    yield {**case, "prog": prog[:i] + [[c[0], c[1][:j] + c[1][j + 1:]]] + prog[i + 1:]}
         if len(case["tys"]) > 1:
             yield {**case, "tys": case["tys"][:-1]}
         al = case.get("alias") or []
